@@ -2320,8 +2320,6 @@ def prune_post_subset(self, font, options):
         table.LigCaretList = None
     if table.MarkAttachClassDef and not table.MarkAttachClassDef.classDefs:
         table.MarkAttachClassDef = None
-    if table.GlyphClassDef and not table.GlyphClassDef.classDefs:
-        table.GlyphClassDef = None
     if table.AttachList and not table.AttachList.GlyphCount:
         table.AttachList = None
     if getattr(table, "VarStore", None):  # the offset may be NULL
